@@ -2777,7 +2777,9 @@ func (p *Posix) PutObject(ctx context.Context, po s3response.PutObjectInput) (s3
 		return s3response.PutObjectOutput{}, s3err.GetAPIError(s3err.ErrExistingObjectIsDirectory)
 	}
 
-	// if the versioninng is enabled first create the file object version
+	// if the versioninng is enabled the current object becomes a version;
+	// this is done once the new content has been received completely (below)
+	createVersion := false
 	if p.versioningEnabled() && vStatus != "" && err == nil {
 		var isVersionIdMissing bool
 		if p.isBucketVersioningSuspended(vStatus) {
@@ -2787,12 +2789,7 @@ func (p *Posix) PutObject(ctx context.Context, po s3response.PutObjectInput) (s3
 			}
 			isVersionIdMissing = len(vIdBytes) == 0
 		}
-		if !isVersionIdMissing {
-			_, err := p.createObjVersion(*po.Bucket, *po.Key, d.Size(), acct)
-			if err != nil {
-				return s3response.PutObjectOutput{}, fmt.Errorf("create object version: %w", err)
-			}
-		}
+		createVersion = !isVersionIdMissing
 	}
 	if errors.Is(err, syscall.ENAMETOOLONG) {
 		return s3response.PutObjectOutput{}, s3err.GetAPIError(s3err.ErrKeyTooLong)
@@ -2854,6 +2851,15 @@ func (p *Posix) PutObject(ctx context.Context, po s3response.PutObjectInput) (s3
 			return s3response.PutObjectOutput{}, s3err.GetAPIError(s3err.ErrQuotaExceeded)
 		}
 		return s3response.PutObjectOutput{}, fmt.Errorf("write object data: %w", err)
+	}
+
+	// the body was read to its end without error (signature, checksums and
+	// length verified): now the current object is kept as a version
+	if createVersion {
+		_, err := p.createObjVersion(*po.Bucket, *po.Key, d.Size(), acct)
+		if err != nil {
+			return s3response.PutObjectOutput{}, fmt.Errorf("create object version: %w", err)
+		}
 	}
 
 	dir := filepath.Dir(name)
